@@ -142,88 +142,6 @@ fn c09_twin_must_fail() {
     assert!(false);
 }
 
-// ---------------------------------------------------------------------------------------------------------
-// Fee payments on a real Context over EmptyDB: the accounts are created by the journal's own `load_account`
-// (one concrete address per harness, so the std HashMap sees constant keys and a fixed hasher state).
-use revm::handler::mainnet::{reimburse_caller, reward_beneficiary};
-use revm::primitives::{address, U256};
-
-fn fee_ctx(gas_price: u64, basefee: u64, priority: Option<u64>) -> Context<(), EmptyDB> {
-    let mut ctx: Context<(), EmptyDB> = Context::new(EvmContext::new(EmptyDB::default()), ());
-    ctx.evm.inner.env.tx.caller = address!("1000000000000000000000000000000000000001");
-    ctx.evm.inner.env.block.coinbase = address!("c000000000000000000000000000000000000001");
-    ctx.evm.inner.env.tx.gas_price = U256::from(gas_price);
-    ctx.evm.inner.env.block.basefee = U256::from(basefee);
-    ctx.evm.inner.env.tx.gas_priority_fee = priority.map(U256::from);
-    ctx
-}
-
-/// effective price = min(max_fee, basefee + priority) (or the legacy gas price)
-fn effective(gas_price: u64, basefee: u64, priority: Option<u64>) -> u128 {
-    match priority {
-        Some(p) => core::cmp::min(gas_price as u128, basefee as u128 + p as u128),
-        None => gas_price as u128,
-    }
-}
-
-/// The beneficiary receives exactly (effective price - base fee) x gas used from London on, effective price x gas used before.
-#[kani::proof]
-#[kani::unwind(34)]
-#[kani::stub(std::hash::RandomState::new, stub_random_state)]
-fn c09_reward_beneficiary_amount() {
-    let (gas_price, basefee, prio, prio_some): (u32, u32, u32, bool) = (kani::any(), kani::any(), kani::any(), kani::any());
-    let (limit, spent, refunded): (u32, u32, u32) = (kani::any(), kani::any(), kani::any());
-    let london: bool = kani::any();
-    kani::assume(spent <= limit && refunded <= spent / 2);
-    let priority = if prio_some { Some(prio as u64) } else { None };
-    // validity rules of the transaction (C02): fee cap covers the base fee and the tip
-    kani::assume(!london || gas_price >= basefee);
-    kani::assume(!prio_some || prio <= gas_price);
-    let mut ctx = fee_ctx(gas_price as u64, basefee as u64, priority);
-    let mut g = Gas::new(limit as u64);
-    assert!(g.record_cost(spent as u64));
-    g.set_refund(refunded as i64);
-    let r = if london {
-        reward_beneficiary::<LondonSpec, (), EmptyDB>(&mut ctx, &g)
-    } else {
-        reward_beneficiary::<BerlinSpec, (), EmptyDB>(&mut ctx, &g)
-    };
-    assert!(r.is_ok());
-    let coinbase = ctx.evm.inner.env.block.coinbase;
-    let got = ctx.evm.inner.journaled_state.state.get(&coinbase).expect("beneficiary loaded").info.balance;
-    let used = (spent - refunded) as u128;
-    let eff = effective(gas_price as u64, basefee as u64, priority);
-    let per_gas = if london { eff - basefee as u128 } else { eff };
-    let want = per_gas * used;
-    let gl = got.as_limbs();
-    assert!(gl[2] == 0 && gl[3] == 0 && (gl[0] as u128 | (gl[1] as u128) << 64) == want,
-        "beneficiary did not receive (effective price - base fee) x gas used");
-    kani::cover!(london && prio_some && (gas_price as u128) < basefee as u128 + prio as u128 && used > 0);
-    kani::cover!(!london && used > 0);
-    core::mem::forget(ctx);
-}
-
-/// The sender is given back exactly effective price x (remaining + refunded).
-#[kani::proof]
-#[kani::unwind(34)]
-#[kani::stub(std::hash::RandomState::new, stub_random_state)]
-fn c09_reimburse_caller_amount() {
-    let (gas_price, basefee, prio, prio_some): (u32, u32, u32, bool) = (kani::any(), kani::any(), kani::any(), kani::any());
-    let (limit, spent, refunded): (u32, u32, u32) = (kani::any(), kani::any(), kani::any());
-    kani::assume(spent <= limit && refunded <= spent / 2);
-    let priority = if prio_some { Some(prio as u64) } else { None };
-    kani::assume(gas_price >= basefee && (!prio_some || prio <= gas_price));
-    let mut ctx = fee_ctx(gas_price as u64, basefee as u64, priority);
-    let mut g = Gas::new(limit as u64);
-    assert!(g.record_cost(spent as u64));
-    g.set_refund(refunded as i64);
-    assert!(reimburse_caller::<LondonSpec, (), EmptyDB>(&mut ctx, &g).is_ok());
-    let caller = ctx.evm.inner.env.tx.caller;
-    let got = ctx.evm.inner.journaled_state.state.get(&caller).expect("caller loaded").info.balance;
-    let want = effective(gas_price as u64, basefee as u64, priority) * ((limit - spent) as u128 + refunded as u128);
-    let gl = got.as_limbs();
-    assert!(gl[2] == 0 && gl[3] == 0 && (gl[0] as u128 | (gl[1] as u128) << 64) == want,
-        "sender was not given back effective price x (remaining + refunded)");
-    kani::cover!(limit == spent && refunded > 0 && gas_price > 0);
-    core::mem::forget(ctx);
-}
+// (Harnesses for the AMOUNTS paid by reward_beneficiary / reimburse_caller on a real Context over EmptyDB were tried: the journal's
+// `load_account` goes through hashbrown's probing; CBMC was still in symbolic execution after 40 minutes. Dropped by rule 8.2; the
+// price that reaches the payment and the presence of the credit are decided on MIR, lib/jobs_e3.py.)
